@@ -21,6 +21,8 @@ from typing import Any, Callable
 from . import pathex, xh
 
 VERIF = "/verif"
+# evidence directory (tools/seed_eval.sh redirects it so that trial runs never overwrite committed evidence)
+EVDIR = os.environ.get("VERIF_EVIDENCE_DIR", os.path.join(VERIF, "evidence"))
 KNOWN_FILE = os.path.join(VERIF, "KNOWN_FINDINGS.jsonl")
 
 
@@ -336,17 +338,17 @@ def run_property(pid: str, obs: list[Ob], tier: str, level="model_checking",
 
 def finish(rep: Report, obs, level, assumptions) -> int:
     pid = rep.pid
-    os.makedirs(os.path.join(VERIF, "evidence", "replays"), exist_ok=True)
+    os.makedirs(os.path.join(EVDIR, "replays"), exist_ok=True)
     lines = []
     for kid, (e, cex, obname) in sorted(rep.known_hits.items()):
         lines.append("KNOWN-FINDING: property=%s %s %s" % (pid, kid, e.get("what", "")))
     vio_paths = []
-    rdir = os.path.join(VERIF, "evidence", "replays")
+    rdir = os.path.join(EVDIR, "replays")
     for fn in os.listdir(rdir):
         if fn.startswith(pid + "-"):
             os.remove(os.path.join(rdir, fn))
     for n, (ob, cex) in enumerate(rep.violations[:int(os.environ.get('VERIF_MAXV', '4'))]):
-        path = os.path.join(VERIF, "evidence", "replays", "%s-%d.json" % (pid, n))
+        path = os.path.join(EVDIR, "replays", "%s-%d.json" % (pid, n))
         with open(path, "w") as f:
             json.dump({"property": pid, "obligation": ob.name, "engine": ob.engine,
                        "module": ob.module, "fn": ob.fn, "counterexample": cex,
@@ -389,7 +391,7 @@ def finish(rep: Report, obs, level, assumptions) -> int:
     if ev["coverage"]["states"] < 1 or ev["coverage"]["transitions"] < 1:
         ev["coverage"]["states"] = max(1, ev["coverage"]["states"])
         ev["coverage"]["transitions"] = max(1, ev["coverage"]["transitions"])
-    with open(os.path.join(VERIF, "evidence", pid + ".json"), "w") as f:
+    with open(os.path.join(EVDIR, pid + ".json"), "w") as f:
         json.dump(ev, f, indent=1, default=str)
     for l in lines:
         print(l)
